@@ -29,8 +29,10 @@ def read_syx_file(filename):
 
     parser = Parser()
 
-    if data[0] == 240:
-        # Binary format.
+    if data[0] >= 0x80:
+        # Binary format. (It starts with a status byte - of a sysex
+        # message or of some other message in front of the first one;
+        # a text file starts with a hex digit or whitespace.)
         parser.feed(data)
     else:
         text = data.decode('latin1')
